@@ -114,6 +114,28 @@ INFO.update({
  "R8-c": ("debug logging throughout; _lookup_mub_info; builder split into helpers; _with_readout in tomography", "behaviour-preserving refactoring"),
 })
 
+# wave 4: a sizeable behaviour-preserving refactoring that hides ONE defect (property the defect breaks in XPROP)
+INFO.update({
+ "X1-a": ("stabilizer_circuits restructured into a pipeline around a GraphStateTemplate memo keyed (num_qubits, graph_id) - without the connectivity", "one process, the same LC class requested on two connectivities whose tables list the same graph with different circuits"),
+ "X1-b": ("rotate_stabilizer_into_state split into helpers; the 'no sign to repair' early exit returns the reference (synthesised) circuit instead of the tailored one", "a stabilizer whose tailored circuit already has all signs right (e.g. all-plus graph states) on a restricted connectivity"),
+ "X2-a": ("circuit_lookup on lru_cache loaders and NamedTuples, MUBInfo builds circuits lazily (property); MUBInfo.copy no longer copies circuits and get_mub_info touches .circuits of the cached instance", "get_mub_info(n,c), then get_mub_circuits(n,c), caller edits the list or a circuit, later get_mub_circuits(n,c)"),
+ "X2-b": ("table-driven parser; MUBInfo derives max cost/depth from the parsed circuits with max() of NamedTuples (lexicographic, not component-wise)", "a MUB table whose most expensive circuit is not the deepest"),
+ "X3-a": ("tomography result parsing vectorised; marginalisation moves each bit with a single shift (outcomes & (1<<q)) >> (q-slot), silently 0 for negative shifts", "a measured_qubits order with qubits[i] < i, e.g. [1,0], [2,0], [0,3,1]"),
+ "X3-b": ("tomography builders share _build_measurement_circuit, which stores the caller's list in ReadoutInfo instead of its tuple snapshot", "the caller passes a list, mutates it afterwards and only then evaluates the earlier circuit"),
+ "X4-a": ("fitter vectorised (tableau + group expansion); reordering sign taken from the already updated x accumulator", "a stabilizer whose pulled-back generators contain an odd number of Y, e.g. ['YI','IZ']"),
+ "X4-b": ("Pauli table memoised on ReadoutInfo; expectation_values multiplies into np.asarray(table.signs) - the cached array itself", "the same measurement circuit evaluated at least twice in one process"),
+ "X5-a": ("connectivity_support table driven (ConnectivityType ranges); row ('cycle', range(4, 7)) one too wide, per-shape asserts dropped", "the request (6, 'cycle')"),
+ "X5-b": ("graph.py vectorised, connectivity list hoisted to a module constant which get_available_connectivities() now returns itself", "a caller mutates the returned list (pop/remove/clear); from then on advertised pairs are refused"),
+ "X6-a": ("circuit_lookup: dispatch-table parser, generic _cached_file loader, MUB cache holds MUBTable/MUBRecord NamedTuples; MUBInfo._assign shares the records' inner basis lists", "a caller edits an inner list of get_mubs() in place, then asks again for the same configuration"),
+ "X6-b": ("bounded LRU memo of the circuit modulo phase keyed with R.tobytes(order='A') / S.tobytes(order='A')", "same process, a C-ordered stabilizer (R,S) then an F-ordered one holding the transposed matrices"),
+ "X7-a": ("stabilizer_circuits split into helpers; info.parse_circuit() memoised under (num_qubits, graph_id) - without the connectivity", "one process, same class on two connectivities whose tables list the same graph with different circuits"),
+ "X7-b": ("tokenizer + dispatch parser; StabilizerCircuitInfo takes cost/depth from the token list, depth advances by 1 for a SWAP (3 native gates); the eager .gates list is handed out with the cached record", "a class whose table circuit contains a SWAP (122 entries of 4-linear, 5-T, 5-linear, 6-E, 6-H, 6-linear); or a caller editing info.gates"),
+ "X8-a": ("graph.py vectorised; compress() memoised per instance and invalidated by every mutator except local_complementation", "compress(), local_complementation(v) at a vertex with >= 2 neighbours, compress() again on the same object"),
+ "X8-b": ("find_local_clifford_layer table driven / vectorised; Graph.local_complementation rewritten with an early exit `neighbours.sum() < 2` on neighbour INDICES", "local complementation at a vertex v >= 2 whose neighbourhood is exactly {0, 1}"),
+})
+XPROP = {"X1-a": "C13", "X1-b": "C07", "X2-a": "C13", "X2-b": "C09", "X3-a": "C11", "X3-b": "C11", "X4-a": "C12", "X4-b": "C13",
+         "X5-a": "C08", "X5-b": "C13", "X6-a": "C13", "X6-b": "C13", "X7-a": "C13", "X7-b": "C04", "X8-a": "C19", "X8-b": "C19"}
+
 
 def main():
     out = os.path.join(V, "seeded")
@@ -149,10 +171,11 @@ def main():
                 info = (open(os.path.join(d, "notes.md")).read().strip().split("\n")[0][:200], "see notes.md")
             meta = {
                 "id": sid,
-                "property_targeted": sid.split("-")[0],
+                "property_targeted": XPROP.get(sid, sid.split("-")[0]),
                 "change": info[0],
                 "needs_to_manifest": info[1],
-                "kind": "behaviour-preserving refactoring (false-alarm corpus: no check may report a violation)" if sid.startswith("R") else "seeded defect",
+                "kind": "behaviour-preserving refactoring (false-alarm corpus: no check may report a violation)" if sid.startswith("R") else
+                        ("seeded defect hidden inside a behaviour-preserving refactoring" if sid.startswith("X") else "seeded defect"),
                 "origin": "written by an independent sub-agent that saw only the property record (or, for refactorings, a focus area) and its own scratch worktree of /repo",
                 "confirmed_by": {
                     "how": ("tools/seedcheck.py confirm-refactor: scratch worktree of /repo HEAD under /tmp; demo.py (digest script) without and with the patch must print identical output and exit 0; full pytest run (-n 8) compared with BASELINE.json stable_pass; worktree removed" if sid.startswith("R") else
